@@ -1,3 +1,622 @@
 // harnesses for crate::encode (child module: sees private items)
 #![allow(dead_code, unused_imports)]
 use super::*;
+use crate::verif_k::spec;
+use crate::verif_k::specenc::{self, PKind};
+use crate::verif_k::tape::{Tape, K_S, K_U, K_UN1};
+use crate::verif_k::{vk_assert, vk_undecided};
+use std::sync::atomic::{AtomicI64, AtomicUsize, Ordering::Relaxed};
+
+fn any_i64_within(bits: u32) -> i64 {
+    let v: i64 = kani::any();
+    kani::assume(spec::fits(v, bits));
+    v
+}
+fn sbc<const MAX: u32>(bits: u32) -> SignedBitCount<MAX> {
+    match SignedBitCount::<MAX>::try_from(bits) {
+        Ok(c) => c,
+        Err(_) => {
+            kani::assume(false);
+            unreachable!()
+        }
+    }
+}
+
+// ------------------------------------------------------------------ LpcSubframeParameters::encode_residuals
+//
+// contract (RFC 9639 §9.2.6, encoder side): for any parameters (order, shift <= 31, coefficients) and samples x
+//   Ok((warm_up, res)) => warm_up == x[..order], res[i] == x[order+i] - ((Σ x[order+i-1-j]·c[j]) >> shift) exactly (no wrap)
+//   Err(ResidualOverflow) only if some such residual does not fit i32
+// which is the residual decode::predict inverts (K-predict_valid_*): lossless by construction.
+macro_rules! k_encode_residuals {
+    ($name:ident, $n:expr, $order:expr, $unw:expr) => {
+        #[kani::proof]
+        #[kani::unwind($unw)]
+        pub(crate) fn $name() {
+            let mut x = [0i32; $n];
+            let mut xs = [0i64; $n];
+            let mut i = 0;
+            while i < $n { x[i] = kani::any(); xs[i] = x[i] as i64; i += 1; }
+            let mut c = [0i64; $order];
+            let mut coefficients: ArrayVec<i32, MAX_LPC_COEFFS> = ArrayVec::new();
+            let mut j = 0;
+            while j < $order { let v = any_i64_within(15); c[j] = v; coefficients.push(v as i32); j += 1; }
+            let shift: u32 = kani::any();
+            kani::assume(shift <= 31);
+            let params = LpcParameters { order: NonZero::new($order as u8).unwrap(), precision: SignedBitCount::new::<15>(), shift, coefficients };
+            let mut cache: Vec<i32> = Vec::new();
+            let r = LpcSubframeParameters::encode_residuals(&params, &x, &mut cache);
+            let mut fits = true;
+            let mut i = $order;
+            while i < $n {
+                let want = specenc::spec_residual(&xs, i, $order, &c, shift);
+                if want < i32::MIN as i64 || want > i32::MAX as i64 { fits = false; }
+                i += 1;
+            }
+            match r {
+                Ok((warm_up, res)) => {
+                    vk_assert!(warm_up.len() == $order && res.len() == $n - $order, "warm-up / residual split follows the predictor order");
+                    let mut i = 0;
+                    while i < $order { vk_assert!(warm_up[i] == x[i], "warm-up samples are the first `order` samples"); i += 1; }
+                    let mut i = $order;
+                    while i < $n {
+                        vk_assert!(res[i - $order] as i64 == specenc::spec_residual(&xs, i, $order, &c, shift), "residual differs from the RFC 9639 9.2.6 residual of the sample");
+                        i += 1;
+                    }
+                }
+                Err(_) => { vk_assert!(!fits, "residuals that fit 32 bits must not be reported as overflow"); }
+            }
+        }
+    };
+}
+k_encode_residuals!(k_enc_residuals_n3_o1, 3, 1, 5);
+k_encode_residuals!(k_enc_residuals_n4_o2, 4, 2, 6);
+k_encode_residuals!(k_enc_residuals_n4_o3, 4, 3, 6);
+
+// ------------------------------------------------------------------ correlate_channels (fast stereo decorrelation)
+//
+// contract (RFC 9639 §4.2): for in-range left/right (bps bits) the returned assignment and channel slices satisfy
+//   Independent: (left, right) at bps;  LeftSide: (left, l-r at bps+1);  SideRight: (l-r at bps+1, right);
+//   MidSide: ((l+r)>>1 at bps, l-r at bps+1);  32-bit input => Independent;  all_0 flags truthful; never panics
+macro_rules! k_correlate {
+    ($name:ident, $mid_side:expr) => {
+        #[kani::proof]
+        #[kani::unwind(5)]
+        pub(crate) fn $name() {
+            let bps: u32 = kani::any();
+            kani::assume(bps >= 1 && bps <= 32);
+            let l = [any_i64_within(bps) as i32, any_i64_within(bps) as i32];
+            let r = [any_i64_within(bps) as i32, any_i64_within(bps) as i32];
+            let options = EncoderOptions { max_partition_order: 0, mid_side: $mid_side, seektable_interval: None, max_lpc_order: None,
+                window: Window::Rectangle, exhaustive_channel_correlation: false, use_rice2: false };
+            let mut cache = CorrelationCache::default();
+            let Correlated { channel_assignment, channels: [c0, c1] } = correlate_channels(&options, &mut cache, [&l, &r], sbc::<32>(bps));
+            let mut i = 0;
+            while i < 2 {
+                let (li, ri) = (l[i] as i64, r[i] as i64);
+                let (w0, w1): (i64, i64) = match channel_assignment {
+                    ChannelAssignment::Independent(_) => (li, ri),
+                    ChannelAssignment::LeftSide => (li, spec::side_of(li, ri)),
+                    ChannelAssignment::SideRight => (spec::side_of(li, ri), ri),
+                    ChannelAssignment::MidSide => (spec::mid_of(li, ri), spec::side_of(li, ri)),
+                };
+                vk_assert!(c0.samples[i] as i64 == w0 && c1.samples[i] as i64 == w1, "correlated channel samples differ from the RFC 9639 4.2 definition for the chosen assignment");
+                i += 1;
+            }
+            let (b0, b1) = match channel_assignment {
+                ChannelAssignment::Independent(Independent::Stereo) => (bps, bps),
+                ChannelAssignment::Independent(_) => (0, 0),
+                ChannelAssignment::LeftSide | ChannelAssignment::MidSide => (bps, bps + 1),
+                ChannelAssignment::SideRight => (bps + 1, bps),
+            };
+            vk_assert!(u32::from(c0.bits_per_sample) == b0 && u32::from(c1.bits_per_sample) == b1, "side channel one bit wider, other channels at the stream width");
+            if bps == 32 { vk_assert!(matches!(channel_assignment, ChannelAssignment::Independent(Independent::Stereo)), "32-bit streams are never decorrelated"); }
+            if !$mid_side { vk_assert!(!matches!(channel_assignment, ChannelAssignment::MidSide), "mid/side only when enabled"); }
+            vk_assert!(!c0.all_0 || (c0.samples[0] == 0 && c0.samples[1] == 0), "all_0 only for an all-zero channel");
+            vk_assert!(!c1.all_0 || (c1.samples[0] == 0 && c1.samples[1] == 0), "all_0 only for an all-zero channel");
+        }
+    };
+}
+k_correlate!(k_correlate_fast_ms, true);
+k_correlate!(k_correlate_fast_noms, false);
+
+// ------------------------------------------------------------------ write_residuals (max partition order 0)
+//
+// Floating point is an oracle: log2/ceil return *any* value, so the contract holds whatever the
+// Rice-parameter estimate comes out as.
+// contract (RFC 9639 §9.2.7): for residuals r (each a valid 32-bit residual or not) and any estimate
+//   Ok(()) => the fields written are: method (2 bits: 0, or 1 only when use_rice2), partition order 0 (4 bits),
+//             then ONE partition that is the RFC coding of exactly r: Rice(k < escape) with unary(zigzag>>k), k low bits;
+//             or escape + 5-bit width w in 1..=31 with every r fitting w bits; or escape + width 0 with all r == 0;
+//             and no residual equals i32::MIN
+//   never panics
+/// log2 under its interval contract, pre-rounded: returns an integer b (as f64) with
+/// 2^(b-2) < x <= 2^(b+1), i.e. ceil(log2 x) give or take one — every value `x.log2().ceil()` can
+/// take on any IEEE implementation, and more.  (x is a mean of magnitudes, 1 < x <= 2^32 here.)
+fn stub_log2(x: f64) -> f64 {
+    let b: u32 = kani::any();
+    kani::assume(b <= 40);
+    let hi = (1u64 << (b + 1)) as f64;
+    kani::assume(x <= hi);
+    if b >= 2 {
+        let lo = (1u64 << (b - 2)) as f64;
+        kani::assume(x > lo);
+    }
+    b as f64
+}
+fn stub_ceil(x: f64) -> f64 {
+    x
+}
+
+macro_rules! k_write_residuals_po0 {
+    ($name:ident, $n:expr, $order:expr, $rice2:expr, $unw:expr) => {
+        #[kani::proof]
+        #[kani::unwind($unw)]
+        #[kani::stub(f64::log2, stub_log2)]
+        #[kani::stub(f64::ceil, stub_ceil)]
+        pub(crate) fn $name() {
+            let mut r = [0i32; $n];
+            let mut i = 0;
+            while i < $n { r[i] = kani::any(); i += 1; }
+            let options = EncoderOptions { max_partition_order: 0, mid_side: false, seektable_interval: None, max_lpc_order: None,
+                window: Window::Rectangle, exhaustive_channel_correlation: false, use_rice2: $rice2 };
+            let mut t: Tape<12> = Tape::new();
+            let res = write_residuals(&options, &mut t, $order, &r);
+            vk_undecided!(!t.overflow, "field tape capacity exceeded");
+            if res.is_ok() {
+                vk_assert!(t.len >= 3, "method, partition order and parameter are always written");
+                let f = &t.f;
+                vk_assert!(f[0].kind == K_U && f[0].width == 2 && f[0].val <= 1, "2-bit coding method 0 or 1");
+                let method = f[0].val as u32;
+                vk_assert!($rice2 || method == 0, "5-bit Rice parameters only when enabled (bits-per-sample > 16)");
+                vk_assert!(f[1].kind == K_U && f[1].width == 4 && f[1].val == 0, "4-bit partition order 0");
+                let pbits = if method == 0 { 4 } else { 5 };
+                let esc = if method == 0 { 15 } else { 31 };
+                vk_assert!(f[2].kind == K_U && f[2].width == pbits, "partition parameter width follows the coding method");
+                let k = f[2].val as u32;
+                let mut i = 0;
+                while i < $n { vk_assert!(r[i] != i32::MIN, "a residual of -2^31 must never be written (RFC 9639 9.2.7.3)"); i += 1; }
+                if k < esc {
+                    vk_assert!(t.len == 3 + 2 * $n, "Rice partition: unary + low bits per residual");
+                    let mut i = 0;
+                    while i < $n {
+                        let z = spec::zigzag(r[i] as i64);
+                        vk_assert!(f[3 + 2 * i].kind == K_UN1 && f[3 + 2 * i].val == z >> k, "unary part is the folded residual shifted right by the Rice parameter");
+                        vk_assert!(f[4 + 2 * i].kind == K_U && f[4 + 2 * i].width == k && f[4 + 2 * i].val == z & ((1u64 << k) - 1), "low bits of the folded residual");
+                        i += 1;
+                    }
+                } else {
+                    vk_assert!(f[3].kind == K_U && f[3].width == 5, "escape code is followed by a 5-bit width");
+                    let w = f[3].val as u32;
+                    if w == 0 {
+                        vk_assert!(t.len == 4, "zero-width escape stores no residuals");
+                        let mut i = 0;
+                        while i < $n { vk_assert!(r[i] == 0, "zero-width escape only for all-zero residuals"); i += 1; }
+                    } else {
+                        vk_assert!(t.len == 4 + $n, "escaped partition: one raw field per residual");
+                        let mut i = 0;
+                        while i < $n {
+                            vk_assert!(f[4 + i].kind == K_S && f[4 + i].width == w && f[4 + i].val as i64 == r[i] as i64, "escaped residual stored in two's complement at the stated width");
+                            i += 1;
+                        }
+                    }
+                }
+            }
+            kani::cover!(res.is_ok() && t.len == 3 + 2 * $n, "Rice coding reachable");
+            kani::cover!(res.is_ok() && t.len == 4, "constant partition reachable");
+        }
+    };
+}
+k_write_residuals_po0!(k_write_res_po0_n2_o0, 2, 0, false, 4);
+k_write_residuals_po0!(k_write_res_po0_n1_o1_rice2, 1, 1, true, 3);
+
+// ------------------------------------------------------------------ encode_subframe (candidate selection, wasted bits, verbatim fallback)
+//
+// The candidate encoders are replaced by their contract "writes some number of bits, or fails" with the
+// number and the failure symbolic, so the obligation covers every outcome of the (float-driven) analysis.
+// contract: for a channel of n samples at bps bits
+//   all samples zero                => CONSTANT subframe, 8 + bps bits
+//   k = common trailing zero bits   => candidates see samples >> k at bps - k bits with wasted = k
+//   returned recorder r             => r.written() <= 8 + k + n·(bps - k)  (the VERBATIM subframe's size): never expands;
+//                                      a candidate is only chosen if strictly smaller than n·(bps - k) bits; both failing => VERBATIM
+static G_FIX_BITS: AtomicUsize = AtomicUsize::new(0);
+static G_FIX_FAIL: AtomicUsize = AtomicUsize::new(0);
+static G_LPC_BITS: AtomicUsize = AtomicUsize::new(0);
+static G_LPC_FAIL: AtomicUsize = AtomicUsize::new(0);
+static G_SEEN_BPS: AtomicUsize = AtomicUsize::new(0);
+static G_SEEN_WASTED: AtomicUsize = AtomicUsize::new(usize::MAX);
+static G_SEEN_S0: AtomicI64 = AtomicI64::new(0);
+static G_SEEN_SL: AtomicI64 = AtomicI64::new(0);
+static G_SEEN_N: AtomicUsize = AtomicUsize::new(0);
+
+fn record_candidate_args(channel: &[i32], bps: SignedBitCount<32>, wasted: u32) {
+    G_SEEN_BPS.store(u32::from(bps) as usize, Relaxed);
+    G_SEEN_WASTED.store(wasted as usize, Relaxed);
+    G_SEEN_N.store(channel.len(), Relaxed);
+    G_SEEN_S0.store(channel[0] as i64, Relaxed);
+    G_SEEN_SL.store(channel[channel.len() - 1] as i64, Relaxed);
+}
+
+/// candidate sizes come from a boundary set around the two comparisons encode_subframe makes
+/// (candidate vs candidate, best vs n·bps): concrete sizes keep the bit recorder's Vec concrete
+const SIZES: [u32; 6] = [9, 10, 47, 48, 49, 120];
+fn pad_choice<W: BitWrite>(writer: &mut W, which: usize) -> Result<(), Error> {
+    match which {
+        0 => writer.pad(SIZES[0])?,
+        1 => writer.pad(SIZES[1])?,
+        2 => writer.pad(SIZES[2])?,
+        3 => writer.pad(SIZES[3])?,
+        4 => writer.pad(SIZES[4])?,
+        _ => writer.pad(SIZES[5])?,
+    }
+    Ok(())
+}
+
+fn stub_encode_fixed<W: BitWrite>(_o: &EncoderOptions, _c: &mut FixedCache, writer: &mut W, channel: &[i32],
+                                  bps: SignedBitCount<32>, wasted: u32) -> Result<(), Error> {
+    record_candidate_args(channel, bps, wasted);
+    if G_FIX_FAIL.load(Relaxed) != 0 { return Err(Error::ResidualOverflow); }
+    pad_choice(writer, G_FIX_BITS.load(Relaxed))
+}
+
+fn stub_encode_lpc<W: BitWrite>(_o: &EncoderOptions, _m: NonZero<u8>, _c: &mut LpcCache, writer: &mut W, channel: &[i32],
+                                bps: SignedBitCount<32>, wasted: u32) -> Result<(), Error> {
+    record_candidate_args(channel, bps, wasted);
+    if G_LPC_FAIL.load(Relaxed) != 0 { return Err(Error::NoBestLpcOrder); }
+    pad_choice(writer, G_LPC_BITS.load(Relaxed))
+}
+
+macro_rules! k_encode_subframe_select {
+    ($name:ident, [$($s:expr),*], $bps:expr, $lpc:expr, $k:expr, $unw:expr) => {
+        #[kani::proof]
+        #[kani::unwind($unw)]
+        #[kani::stub(encode_fixed_subframe, stub_encode_fixed)]
+        #[kani::stub(encode_lpc_subframe, stub_encode_lpc)]
+        pub(crate) fn $name() {
+            let samples: &[i32] = &[$($s),*];
+            let n = samples.len() as u32;
+            let fb: usize = kani::any(); let lb: usize = kani::any();
+            kani::assume(fb <= 5 && lb <= 5);
+            let ff: bool = kani::any(); let lf: bool = kani::any();
+            G_FIX_BITS.store(fb, Relaxed); G_LPC_BITS.store(lb, Relaxed);
+            G_FIX_FAIL.store(ff as usize, Relaxed); G_LPC_FAIL.store(lf as usize, Relaxed);
+            let options = EncoderOptions { max_partition_order: 0, mid_side: false, seektable_interval: None,
+                max_lpc_order: if $lpc { NonZero::new(8) } else { None }, window: Window::Rectangle,
+                exhaustive_channel_correlation: false, use_rice2: false };
+            let mut cache = ChannelCache::default();
+            let all_zero = samples.iter().all(|s| *s == 0);
+            let res = encode_subframe(&options, &mut cache, CorrelatedChannel { samples, bits_per_sample: sbc::<32>($bps), all_0: kani::any::<bool>() && all_zero });
+            let r = match res { Ok(r) => r, Err(_) => { vk_assert!(false, "encode_subframe failed although the verbatim fallback always applies"); return; } };
+            let written = r.written();
+            if all_zero {
+                vk_assert!(written == 8 + $bps, "an all-zero channel is a CONSTANT subframe of 8 + bps bits");
+            } else {
+                let k: u32 = $k; // common trailing zeros of the concrete samples
+                let verbatim = 8 + k + n * ($bps - k);
+                vk_assert!(written <= verbatim, "subframe larger than the samples stored verbatim");
+                vk_assert!(G_SEEN_WASTED.load(Relaxed) == k as usize && G_SEEN_BPS.load(Relaxed) == ($bps - k) as usize, "candidates get the wasted-bit count and the reduced sample width");
+                vk_assert!(G_SEEN_N.load(Relaxed) == n as usize && G_SEEN_S0.load(Relaxed) == (samples[0] >> k) as i64
+                    && G_SEEN_SL.load(Relaxed) == (samples[samples.len() - 1] >> k) as i64, "candidates get the samples shifted right by the wasted bits");
+                let fix_ok = !ff; let lpc_ok = $lpc && !lf;
+                if !fix_ok && !lpc_ok { vk_assert!(written == verbatim, "no candidate => VERBATIM subframe"); }
+                if written != verbatim { vk_assert!(written < n * ($bps - k), "a candidate is only chosen when strictly smaller than the raw samples"); }
+            }
+            kani::cover!(all_zero || written < n * $bps, "a candidate (or the constant subframe) is chosen for some sizes");
+        }
+    };
+}
+k_encode_subframe_select!(k_enc_select_odd_lpc, [5, -7, 9], 16, true, 0, 6);
+k_encode_subframe_select!(k_enc_select_odd_nolpc, [5, -7, 9], 16, false, 0, 6);
+k_encode_subframe_select!(k_enc_select_wasted2_lpc, [4, -8, 12], 18, true, 2, 6);
+k_encode_subframe_select!(k_enc_select_zero, [0, 0, 0], 24, true, 0, 6);
+k_encode_subframe_select!(k_enc_select_odd_12bit, [5, -7, 9], 12, true, 0, 6);
+
+
+
+// ------------------------------------------------------------------ encode_fixed_subframe / encode_lpc_subframe (modular)
+//
+// write_residuals is replaced by its contract (K-write_res_po0_*): it is handed a predictor order and the
+// residual slice and writes their coding; here it records both so the caller's obligations can be stated:
+// contract encode_fixed_subframe: writes header FIXED(k) with the wasted-bits field, the first k samples at bps
+//   bits, then calls write_residuals(k, r) with r[i] == the k-th order difference of x  (== RFC residual for
+//   the fixed predictor of order k), k <= 4 and k < n;  never panics (differences that overflow i32 stop the search)
+static G_WR_ORDER: AtomicUsize = AtomicUsize::new(usize::MAX);
+static G_WR_LEN: AtomicUsize = AtomicUsize::new(usize::MAX);
+static G_WR_CALLS: AtomicUsize = AtomicUsize::new(0);
+static G_WR_RES: [AtomicI64; 8] = [const { AtomicI64::new(0) }; 8];
+fn stub_write_residuals<W: BitWrite>(_o: &EncoderOptions, _w: &mut W, predictor_order: usize, residuals: &[i32]) -> Result<(), Error> {
+    G_WR_ORDER.store(predictor_order, Relaxed);
+    G_WR_LEN.store(residuals.len(), Relaxed);
+    G_WR_CALLS.fetch_add(1, Relaxed);
+    let mut i = 0;
+    while i < residuals.len() && i < 8 { G_WR_RES[i].store(residuals[i] as i64, Relaxed); i += 1; }
+    Ok(())
+}
+
+fn check_header_fields<const N: usize>(t: &Tape<N>, type_code: u64, wasted: u32) -> usize {
+    vk_assert!(t.f[0].kind == K_U && t.f[0].width == 1 && t.f[0].val == 0, "subframe starts with a zero padding bit");
+    vk_assert!(t.f[1].kind == K_U && t.f[1].width == 6 && t.f[1].val == type_code, "6-bit subframe type code");
+    vk_assert!(t.f[2].kind == K_U && t.f[2].width == 1 && t.f[2].val == (wasted > 0) as u64, "wasted-bits flag");
+    if wasted > 0 {
+        vk_assert!(t.f[3].kind == K_UN1 && t.f[3].val == (wasted - 1) as u64, "wasted bits coded as unary(k - 1)");
+        4
+    } else {
+        3
+    }
+}
+
+macro_rules! k_encode_fixed {
+    ($name:ident, $n:expr, $unw:expr) => {
+        #[kani::proof]
+        #[kani::unwind($unw)]
+        #[kani::stub(write_residuals, stub_write_residuals)]
+        pub(crate) fn $name() {
+            let bps: u32 = kani::any();
+            kani::assume(bps >= 1 && bps <= 32);
+            let wasted: u32 = kani::any();
+            kani::assume(wasted <= 3);
+            let mut x = [0i32; $n];
+            let mut xs = [0i64; $n];
+            let mut i = 0;
+            while i < $n { xs[i] = any_i64_within(bps); x[i] = xs[i] as i32; i += 1; }
+            let options = EncoderOptions { max_partition_order: 0, mid_side: false, seektable_interval: None, max_lpc_order: None,
+                window: Window::Rectangle, exhaustive_channel_correlation: false, use_rice2: false };
+            let mut cache = FixedCache::default();
+            let mut t: Tape<12> = Tape::new();
+            let res = encode_fixed_subframe(&options, &mut cache, &mut t, &x, sbc::<32>(bps), wasted);
+            vk_assert!(res.is_ok(), "encode_fixed_subframe fails only if writing fails");
+            vk_assert!(G_WR_CALLS.load(Relaxed) == 1, "residuals written exactly once");
+            let k = G_WR_ORDER.load(Relaxed);
+            vk_assert!(k <= 4 && k < $n, "fixed predictor order at most 4 and below the block size");
+            let at = check_header_fields(&t, specenc::t_fixed(k as u32), wasted);
+            vk_assert!(t.len == at + k, "header, then exactly `order` warm-up samples, then the residual coding");
+            let mut i = 0;
+            while i < 4 {
+                if i < k { vk_assert!(t.f[at + i].kind == K_S && t.f[at + i].width == bps && t.f[at + i].val as i64 == xs[i], "warm-up sample i is sample i at the subframe's width"); }
+                i += 1;
+            }
+            vk_assert!(G_WR_LEN.load(Relaxed) == $n - k, "one residual per predicted sample");
+            let c = specenc::fixed_coeffs(k);
+            let mut i = k;
+            while i < $n {
+                vk_assert!(G_WR_RES[i - k].load(Relaxed) == specenc::spec_residual(&xs, i, k, &c, 0), "residual differs from the RFC 9639 9.2.5 fixed-predictor residual");
+                i += 1;
+            }
+        }
+    };
+}
+k_encode_fixed!(k_enc_fixed_n3, 3, 6);
+k_encode_fixed!(k_enc_fixed_n4, 4, 7);
+k_encode_fixed!(k_enc_fixed_n1, 1, 6);
+
+
+// contract encode_lpc_subframe (LpcParameters::best, the float analysis, replaced by "any parameters the quantiser may
+// return": order, precision 1..15, shift 0..15, coefficients fitting the precision; everything else is the real code):
+//   writes header LPC(order), `order` warm-up samples at bps bits, precision - 1 in 4 bits (never 1111),
+//   the shift in 5 bits two's complement (>= 0), `order` coefficients at `precision` bits, then write_residuals(order, r)
+static G_P_ORDER: AtomicUsize = AtomicUsize::new(1);
+static G_P_PREC: AtomicUsize = AtomicUsize::new(1);
+static G_P_SHIFT: AtomicUsize = AtomicUsize::new(0);
+static G_P_C: [AtomicI64; 4] = [const { AtomicI64::new(0) }; 4];
+static G_P_FAIL: AtomicUsize = AtomicUsize::new(0);
+fn stub_lpc_params_best(_o: &EncoderOptions, _bps: SignedBitCount<32>, _max: NonZero<u8>, _window: &mut Vec<f64>, _windowed: &mut Vec<f64>,
+    _channel: &[i32]) -> Result<LpcParameters, Error> {
+    if G_P_FAIL.load(Relaxed) != 0 { return Err(Error::NoBestLpcOrder); }
+    let order = G_P_ORDER.load(Relaxed);
+    let mut coefficients: ArrayVec<i32, MAX_LPC_COEFFS> = ArrayVec::new();
+    let mut j = 0;
+    while j < order { coefficients.push(G_P_C[j].load(Relaxed) as i32); j += 1; }
+    Ok(LpcParameters { order: NonZero::new(order as u8).unwrap(),
+        precision: SignedBitCount::<15>::try_from(G_P_PREC.load(Relaxed) as u32).unwrap(), shift: G_P_SHIFT.load(Relaxed) as u32, coefficients })
+}
+
+macro_rules! k_encode_lpc {
+    ($name:ident, $n:expr, $order:expr, $unw:expr) => {
+        #[kani::proof]
+        #[kani::unwind($unw)]
+        #[kani::stub(write_residuals, stub_write_residuals)]
+        #[kani::stub(LpcParameters::best, stub_lpc_params_best)]
+        pub(crate) fn $name() {
+            let bps: u32 = kani::any();
+            kani::assume(bps >= 1 && bps <= 32);
+            let wasted: u32 = kani::any();
+            kani::assume(wasted <= 3);
+            let precision: u32 = kani::any();
+            kani::assume(precision >= 1 && precision <= 15);
+            let shift: u32 = kani::any();
+            kani::assume(shift <= 15);
+            let mut c = [0i64; $order];
+            let mut j = 0;
+            while j < $order { c[j] = any_i64_within(precision); G_P_C[j].store(c[j], Relaxed); j += 1; }
+            G_P_ORDER.store($order, Relaxed); G_P_PREC.store(precision as usize, Relaxed); G_P_SHIFT.store(shift as usize, Relaxed);
+            let fail: bool = kani::any();
+            G_P_FAIL.store(fail as usize, Relaxed);
+            let mut x = [0i32; $n];
+            let mut xs = [0i64; $n];
+            let mut i = 0;
+            while i < $n { xs[i] = any_i64_within(bps); x[i] = xs[i] as i32; i += 1; }
+            let options = EncoderOptions { max_partition_order: 0, mid_side: false, seektable_interval: None, max_lpc_order: NonZero::new(8),
+                window: Window::Rectangle, exhaustive_channel_correlation: false, use_rice2: false };
+            let mut cache = LpcCache::default();
+            let mut t: Tape<16> = Tape::new();
+            let res = encode_lpc_subframe(&options, NonZero::new(8).unwrap(), &mut cache, &mut t, &x, sbc::<32>(bps), wasted);
+            if fail { vk_assert!(res.is_err() && t.len == 0, "no parameters => error and nothing written"); return; }
+            if res.is_err() { vk_assert!(t.len == 0, "a residual overflow is detected before anything is written"); return; }
+            let at = check_header_fields(&t, specenc::t_lpc($order as u32), wasted);
+            let mut i = 0;
+            while i < $order {
+                vk_assert!(t.f[at + i].kind == K_S && t.f[at + i].width == bps && t.f[at + i].val as i64 == xs[i], "warm-up sample i is sample i at the subframe's width");
+                i += 1;
+            }
+            let p = at + $order;
+            vk_assert!(t.f[p].kind == K_U && t.f[p].width == 4 && t.f[p].val == (precision - 1) as u64 && t.f[p].val != 15, "coefficient precision minus one in 4 bits, never 1111");
+            vk_assert!(t.f[p + 1].kind == K_S && t.f[p + 1].width == 5 && t.f[p + 1].val as i64 == shift as i64, "prediction shift in 5 bits, two's complement, non-negative");
+            let mut j = 0;
+            while j < $order {
+                vk_assert!(t.f[p + 2 + j].kind == K_S && t.f[p + 2 + j].width == precision && t.f[p + 2 + j].val as i64 == c[j], "coefficient j at the stated precision");
+                j += 1;
+            }
+            vk_assert!(t.len == p + 2 + $order, "nothing else before the residual coding");
+            vk_assert!(G_WR_CALLS.load(Relaxed) == 1 && G_WR_ORDER.load(Relaxed) == $order && G_WR_LEN.load(Relaxed) == $n - $order, "residual coder called once with the predictor order and n - order residuals");
+            let mut i = $order;
+            while i < $n {
+                vk_assert!(G_WR_RES[i - $order].load(Relaxed) == specenc::spec_residual(&xs, i, $order, &c, shift), "residual differs from the RFC 9639 9.2.6 residual");
+                i += 1;
+            }
+        }
+    };
+}
+k_encode_lpc!(k_enc_lpc_n3_o1, 3, 1, 6);
+k_encode_lpc!(k_enc_lpc_n4_o2, 4, 2, 7);
+
+// ------------------------------------------------------------------ Encoder::encode bookkeeping (C09 / C14 / C15)
+//
+// contract (encode_frame replaced by "writes some bytes or fails"): one call
+//   pushes exactly one seek point (samples written before, bytes written before, this frame's length),
+//   adds the frame's length to samples_written, fails with ExcessiveTotalSamples as soon as a declared total would be exceeded,
+//   never seeks and never touches bytes already written
+static G_EF_BYTES: AtomicUsize = AtomicUsize::new(0);
+static G_EF_FAIL: AtomicUsize = AtomicUsize::new(0);
+static G_EF_CALLS: AtomicUsize = AtomicUsize::new(0);
+fn stub_encode_frame<W: std::io::Write>(_o: &EncoderOptions, _c: &mut EncodingCaches, _writer: W, _s: &mut Streaminfo,
+    _f: &mut FrameNumber, _r: SampleRate<u32>, frame: ArrayVec<&[i32], MAX_CHANNELS>) -> Result<(), Error> {
+    G_EF_CALLS.fetch_add(1, Relaxed);
+    std::mem::forget(frame);
+    if G_EF_FAIL.load(Relaxed) != 0 { return Err(Error::ExcessiveFrameNumber); }
+    Ok(())
+}
+
+pub(crate) struct LogSink { pub written: u64, pub seeks: u32 }
+impl std::io::Write for LogSink {
+    fn write(&mut self, buf: &[u8]) -> std::io::Result<usize> { self.written += buf.len() as u64; Ok(buf.len()) }
+    fn flush(&mut self) -> std::io::Result<()> { Ok(()) }
+}
+impl std::io::Seek for LogSink {
+    fn seek(&mut self, _pos: std::io::SeekFrom) -> std::io::Result<u64> { self.seeks += 1; Ok(0) }
+}
+
+fn mk_encoder(total: Option<NonZero<u64>>, samples_written: u64, count: u64) -> Encoder<LogSink> {
+    let si = Streaminfo { minimum_block_size: 16, maximum_block_size: 16, minimum_frame_size: None, maximum_frame_size: None,
+        sample_rate: 44100, channels: NonZero::new(1).unwrap(), bits_per_sample: sbc::<32>(16), total_samples: total, md5: None };
+    let mut writer = Counter::new(LogSink { written: 0, seeks: 0 });
+    writer.count = count;
+    Encoder { writer, start: 0, options: EncoderOptions { max_partition_order: 0, mid_side: false, seektable_interval: None, max_lpc_order: None,
+        window: Window::Rectangle, exhaustive_channel_correlation: false, use_rice2: false }, caches: EncodingCaches::default(),
+        blocks: BlockList::new(si), sample_rate: SampleRate::Hz44100, frame_number: FrameNumber(0), samples_written, seekpoints: Vec::new(),
+        md5: md5::Context::new(), finalized: true /* keeps Drop from finalizing */ }
+}
+
+macro_rules! k_encoder_encode_bookkeeping {
+    ($name:ident, $declared:expr) => {
+        #[kani::proof]
+        #[kani::unwind(6)]
+        #[kani::stub(encode_frame, stub_encode_frame)]
+        pub(crate) fn $name() {
+            G_EF_FAIL.store(0, Relaxed);
+            let total: u64 = kani::any();
+            kani::assume(total >= 1 && total < (1 << 36));
+            let before: u64 = kani::any();
+            let count: u64 = kani::any();
+            kani::assume(before < (1 << 40) && count < (1 << 50));
+            let mut e = mk_encoder(if $declared { NonZero::new(total) } else { None }, before, count);
+            let mut frame = Frame::empty(1, 16);
+            frame.resize(16, 1, 3);
+            let res = e.encode(&frame);
+            let ok = res.is_ok();
+            let excessive = matches!(res, Err(Error::ExcessiveTotalSamples));
+            std::mem::forget(res);
+            let over = $declared && before + 3 > total;
+            if over {
+                vk_assert!(excessive, "writing past the declared total must fail");
+                vk_assert!(G_EF_CALLS.load(Relaxed) == 0, "nothing is written for a frame that exceeds the declared total");
+            } else {
+                vk_assert!(ok && G_EF_CALLS.load(Relaxed) == 1, "the frame is handed to the frame writer exactly once");
+                vk_assert!(e.seekpoints.len() == 1, "exactly one seek point per frame");
+                vk_assert!(e.seekpoints[0].sample_offset == before, "seek point names the first sample of the frame");
+                vk_assert!(e.seekpoints[0].byte_offset == Some(count), "seek point names the byte offset of the frame from the first frame");
+                vk_assert!(e.seekpoints[0].frame_samples == 3, "seek point names the length of the frame");
+                vk_assert!(e.samples_written == before + 3, "sample counter advances by the block size");
+            }
+            vk_assert!(e.writer.stream.seeks == 0, "encoding never seeks: frames are append-only");
+        }
+    };
+}
+k_encoder_encode_bookkeeping!(k_encoder_encode_declared, true);
+k_encoder_encode_bookkeeping!(k_encoder_encode_undeclared, false);
+
+// ------------------------------------------------------------------ Options (C15): every documented value accepted, every other rejected, no panic
+#[kani::proof]
+#[kani::unwind(4)]
+pub(crate) fn k_options_setters() {
+    let bs: u16 = kani::any();
+    match Options::fast().no_padding().no_seektable().block_size(bs) {
+        Ok(o) => vk_assert!(bs >= 16 && o.block_size == bs, "block sizes below 16 are refused, others stored"),
+        Err(_) => vk_assert!(bs < 16, "a block size of 16 or more must be accepted"),
+    }
+    let lpc: Option<u8> = kani::any();
+    match Options::fast().no_padding().no_seektable().max_lpc_order(lpc) {
+        Ok(o) => vk_assert!(lpc.map_or(o.max_lpc_order.is_none(), |v| v >= 1 && v <= 32 && o.max_lpc_order.map(|x| x.get()) == Some(v)), "LPC order None or 1..=32 stored as given"),
+        Err(_) => vk_assert!(matches!(lpc, Some(v) if v == 0 || v > 32), "LPC orders 1..=32 and None must be accepted"),
+    }
+    let po: u32 = kani::any();
+    match Options::fast().no_padding().no_seektable().max_partition_order(po) {
+        Ok(o) => vk_assert!(po <= 15 && o.max_partition_order == po, "partition orders 0..=15 stored as given"),
+        Err(_) => vk_assert!(po > 15, "a partition order of at most 15 must be accepted"),
+    }
+}
+
+// ------------------------------------------------------------------ seek point bookkeeping (C09)
+// contract: placeholders(total, block) are the block starts 0, b, 2b, ... < total, each with length min(b, total - start)
+#[kani::proof]
+#[kani::unwind(6)]
+pub(crate) fn k_seek_placeholders() {
+    let block: u16 = kani::any();
+    kani::assume(block >= 16);
+    let total: u64 = kani::any();
+    kani::assume(total >= 1 && total <= 4 * block as u64);
+    let mut n = 0u64;
+    for p in EncoderSeekPoint::placeholders(total, block) {
+        vk_assert!(p.sample_offset == n * block as u64 && p.byte_offset.is_none(), "placeholder k starts at k x block size");
+        vk_assert!(p.frame_samples as u64 == (total - p.sample_offset).min(block as u64), "each placeholder covers one block, the last one the remainder");
+        vk_assert!(p.range().start == p.sample_offset && p.range().end == p.sample_offset + p.frame_samples as u64, "range is [start, start + length)");
+        n += 1;
+    }
+    vk_assert!(n == total.div_ceil(block as u64), "one placeholder per block of the stream");
+}
+
+// contract: Frames(n) keeps every n-th point starting with the first; Seconds(s) keeps a point iff its frame
+// contains the next multiple of s x rate; the result is a subsequence (ascending, no duplicates)
+#[kani::proof]
+#[kani::unwind(6)]
+pub(crate) fn k_seek_filter() {
+    let blk: u16 = kani::any();
+    kani::assume(blk >= 1);
+    let mut pts: Vec<EncoderSeekPoint> = Vec::new();
+    let mut i = 0u64;
+    while i < 4 {
+        pts.push(EncoderSeekPoint { sample_offset: i * blk as u64, byte_offset: Some(i * 100), frame_samples: blk });
+        i += 1;
+    }
+    let every: usize = kani::any();
+    kani::assume(every >= 1 && every <= 5);
+    let mut k = 0usize;
+    for p in SeekTableInterval::Frames(NonZero::new(every).unwrap()).filter(44100, pts.iter().cloned()) {
+        vk_assert!(p.sample_offset == (k * every) as u64 * blk as u64, "Frames(n): points 0, n, 2n, ... of the stream");
+        k += 1;
+    }
+    vk_assert!(k == 4usize.div_ceil(every), "Frames(n): every n-th point and no other");
+    let secs: u8 = kani::any();
+    kani::assume(secs >= 1);
+    let rate: u32 = kani::any();
+    kani::assume(rate >= 1 && rate < (1 << 20));
+    let step = secs as u64 * rate as u64;
+    let mut want_next = 0u64;
+    let mut last: Option<u64> = None;
+    for p in SeekTableInterval::Seconds(NonZero::new(secs).unwrap()).filter(rate, pts.iter().cloned()) {
+        vk_assert!(p.range().contains(&want_next), "Seconds(s): a kept point's frame contains the next multiple of s x rate");
+        vk_assert!(last.map_or(true, |l| p.sample_offset > l), "kept points are strictly ascending");
+        last = Some(p.sample_offset);
+        want_next += step;
+    }
+    vk_assert!(last.is_some(), "the first frame (sample 0) is always kept");
+}
